@@ -199,8 +199,8 @@ Lemma kernels_agree_with_circuit rounds data anc q :
 Proof.
   intros Hne Hnd Hpos Hq.
   pose proof (experiment_kernel_closed rounds true true data anc 1 Hne) as He.
-  exists (exp_closed rounds true data anc 1). split; [exact He|].
-  set (e := exp_closed rounds true data anc 1) in *.
+  exists (exp_closed rounds true true data anc 1). split; [exact He|].
+  set (e := exp_closed rounds true true data anc 1) in *.
   set (ks := kernels_from true data anc 0 rounds).
   assert (Hm : is_member q (data ++ anc) = true) by (apply existsb_app_r; exact Hq).
   assert (Hks : RepetitionExperimentKernel__repetition_kernels e = ks) by reflexivity.
@@ -233,12 +233,12 @@ Proof.
                                         (block_tags (RepetitionIndexKernel_nr_repeated_parities k)) else []))
       by (intros k; apply labelled_block_block).
     rewrite (concat_map_select RepetitionIndexKernel_nr_repeated_parities _ ks _ Hndk Hk). reflexivity. }
-  destruct (repetition_translate rounds true true data anc 1 e q He) as (Htr & _ & Hcal & _). cbv zeta in Htr, Hcal.
+  destruct (repetition_translate rounds true true data anc 1 e q He) as (Htr & _ & Hcal & _). cbv beta iota zeta in Htr, Hcal.
   split; [|split; [|split]].
   - (* length *)
     unfold multi_round_tags. rewrite map_length. unfold multi_round_labelled.
     change (flat_map (fun r => map (fun t => (t, Block r)) (block_tags r)) rounds) with (flat_map labelled_block rounds).
-    rewrite app_length, Nat2Z.inj_add, (blocks_length rounds Hpos). unfold e. rewrite exp_cycle_length.
+    rewrite app_length, Nat2Z.inj_add, (blocks_length rounds Hpos). unfold e. rewrite exp_cycle_length by exact Hne.
     unfold cycle_len, dh. cbn [calibration_labelled StateKey_all flat_map app length]. lia.
   - (* blocks *)
     intros n Hn. destruct (Hkn n Hn) as (s' & Hk).
@@ -265,7 +265,7 @@ Proof.
       { apply (kernels_from_disjoint true data anc rounds 0 _ _ (RepetitionIndexKernel_stop_index (MkRepetitionIndexKernel 0 true s' data anc)) Hk' Hk Hb).
         rewrite rep_stop. cbn [RepetitionIndexKernel_start_index]. pose proof (klen_pos true 0). lia. }
       rewrite Heq in Hx. exact (Hnot Hx).
-    + cbn [e exp_closed RepetitionExperimentKernel__calibration_kernel] in Hin.
+    + cbn [e exp_closed RepetitionExperimentKernel__calibration_kernel RepetitionExperimentKernel__qutrit_calibration_points] in Hin.
       pose proof (incr_in_sub _ _ _ _ (cal_kernel_incr true (total_len true rounds) (data ++ anc) q) Hin) as Hb.
       cbn [QutritCalibrationIndexKernel_start_index] in Hb.
       apply kernels_from_In in Hk. destruct Hk as (r0 & s0 & Heq & _ & _ & Hle). injection Heq as <- <-.
@@ -306,11 +306,11 @@ Lemma tag_positions rounds data anc q :
 Proof.
   intros Hne Hnd Hpos Hq.
   pose proof (experiment_kernel_closed rounds true true data anc 1 Hne) as He.
-  exists (exp_closed rounds true data anc 1). split; [exact He|].
-  set (e := exp_closed rounds true data anc 1) in *.
+  exists (exp_closed rounds true true data anc 1). split; [exact He|].
+  set (e := exp_closed rounds true true data anc 1) in *.
   set (ks := kernels_from true data anc 0 rounds).
   assert (Hm : is_member q (data ++ anc) = true) by (apply existsb_app_r; exact Hq).
-  destruct (repetition_translate rounds true true data anc 1 e q He) as (Htr & _ & Hcal & _). cbv zeta in Htr, Hcal.
+  destruct (repetition_translate rounds true true data anc 1 e q He) as (Htr & _ & Hcal & _). cbv beta iota zeta in Htr, Hcal.
   specialize (Htr Hnd).
   (* positions of a tag = blocks against the kernel chain ++ calibration block *)
   assert (Hsplit : forall T, positions (is_tag T) (multi_round_tags rounds)
@@ -366,7 +366,7 @@ Proof.
       { apply (kernels_from_disjoint true data anc rounds 0 _ _ (RepetitionIndexKernel_stop_index (MkRepetitionIndexKernel 0 true s' data anc)) Hk' Hin Hb).
         rewrite rep_stop. cbn [RepetitionIndexKernel_start_index]. pose proof (klen_pos true 0). lia. }
       rewrite Heq in Hx. exact (Hnot Hx).
-    + cbn [e exp_closed RepetitionExperimentKernel__calibration_kernel] in Hcy.
+    + cbn [e exp_closed RepetitionExperimentKernel__calibration_kernel RepetitionExperimentKernel__qutrit_calibration_points] in Hcy.
       pose proof (incr_in_sub _ _ _ _ (cal_kernel_incr true (total_len true rounds) (data ++ anc) q) Hcy) as Hb.
       cbn [QutritCalibrationIndexKernel_start_index] in Hb.
       apply kernels_from_In in Hin. destruct Hin as (r0 & s0 & Heq & _ & _ & Hle). injection Heq as <- <-.
